@@ -22,6 +22,8 @@ RULE = ("the real qmail-send.c rewrite()/stripvdomprepend()/addbounce()/del_doch
         "-> double bounce -> discard with every generated message failing; (D) spawner reports through del_dochan on both channels (status D/Z/K/other, "
         "dying or not, lengths around REPORTMAX, read chunkings); (Q) a second binary linking the REAL qmail.c: injectbounce() -> qmail_open() forks and execs a scripted queue program "
         "(harness/c07_qq.c: records what it is given, then exits with each of 16 codes or dies by SIGKILL/SIGTERM/SIGSEGV/SIGABRT), then a retry with a well-behaved one; "
+        "in the same leg the k-th open_read() and the k-th read() of a queue file (info/, bounce/, mess/) inside injectbounce() is made to fail for every call index k, in front of a queue program that exits 0, exits 54 or is killed, "
+        "and the message and envelope bytes the queue program received are compared with Nq.BounceQq (qmail.c's sticky error flag under injectbounce()'s calls); (D) also reports the order of the real writes to bounce/<id> and of the done-mark; "
         "plus seeded random cases of all five kinds (reports up to 12 KB) and the corpora "
         "corpus/C14.txt, corpus/C14-qq.txt. Oracle on the implementation's output, its tables and the double-bounce address computed on the spec side from the raw "
         "control-file bytes (specVdoms/specLocals/specDoubleBounceTo, not the model's getcontrols): exactly one paragraph per failed recipient starting with its <address>: line (address = "
@@ -29,7 +31,9 @@ RULE = ("the real qmail-send.c rewrite()/stripvdomprepend()/addbounce()/del_doch
         "END TO END for original addresses: the paragraph names the address as routed by C10's model of rewrite() whenever the non-ambiguity hypothesis of C14_bounce_names_routed_address holds "
         "(always on the remote channel; the real routing is compared with that model too), blank line only at "
         "the end, report text shown up to LF->/, original message a suffix of the notice, envelope rules, chain length <= 2, bounce file removed only after queueing "
-        "(Q: only if the queue program exited 0 without a signal; after a refusal the retry delivers exactly the notice), no second "
+        "(Q: only if the queue program exited 0 without a signal having been given a terminated envelope and a notice that contains the whole bounce/<id> and ends with the original message - "
+        "queuedOK/completeOK of C14_inject_fault_accepted_complete; otherwise 'will try later', the record stays; after a refusal the retry delivers exactly the complete notice), "
+        "D: for a permanent failure every write to bounce/<id> precedes the write of the done-mark (recordBeforeMark), no second "
         "notice after success; non-trivial = distinct case with a stored form differing from the given or named address, a locals-domain record, an LF-bearing recipient, a report with an empty line, a "
         "queued/failed injection, a non-empty chain, a recorded bounce or a Q case")
 ARGS = {"quick": "7 6 6000", "thorough": "9 7 60000"}
@@ -41,6 +45,8 @@ ASSUME = ["in the P/I/C/D legs qmail.c is replaced by a capture of the qmail_ope
           "replay of drv_c14 is a SYNTHETIC life: arrival, preprocessing, delivery commands, reports and marks are fabricated set-up events, only appendBounce / "
           "bounceInject / unlinkBounce carry bytes and outcomes of the real addbounce()/injectbounce()",
           "the Q leg uses real fork/exec/pipes/waitpid of the host and C07's scripted stand-in for qmail-queue; 'committed' is what the script says (exit 0, no signal)",
+          "Q-leg faults: 'queued' = the scripted queue program exited 0 un-killed AND was given a terminated envelope F..NUL{T..NUL}NUL (a real qmail-queue refuses anything else: C01); pipe writes to the queue program do not fail",
+          "the write-ahead ORDER of failure record and done-mark is observed in one uninterrupted del_dochan() call; what a crash between the two writes loses is C03's clause",
           "routing of original addresses: envnoathost = control/me's first line or the literal (no control/envnoathost, no control/percenthack in these cases)"]
 NAME = ("Nq.Bounce (stripvdom, nameOf, addbounceText, delReport, getcontrols, inject/bounceOf) vs qmail-send.c "
         "stripvdomprepend()/addbounce()/del_dochan()/getcontrols()/injectbounce() (+ qmail.c qmail_open/qmail_close in the Q leg)")
